@@ -67,8 +67,8 @@ theorem bceLossGradient_eq_spec_several (n c : Nat) (hc : c ≠ 1) (s : Nat → 
 theorem bceLossGradient_eq_spec_one (n : Nat) (s : Nat → Nat → ℝ) (labels : List Nat)
     (hlen : labels.length = n) (hlab : ∀ y ∈ labels, y ≤ 1) :
     bceLossGradient (mk' n 1 s) labels = .ok (Spec.bceGradient (mk' n 1 s) labels) := by
-  unfold bceLossGradient bceLossGradientPinned
-  simp only [mk'_c, mk'_r, if_true, hlen, ne_eq, not_true_eq_false, if_false]
+  unfold bceLossGradient bceGradOneChannel
+  simp only [mk'_c, mk'_r, if_true, hlen]
   congr 1
   unfold Spec.bceGradient
   simp only [mk'_r, mk'_c, if_true]
